@@ -13,6 +13,12 @@
   blakeseq.trace <n> <p1> … <pk>                             counters over all calls
   blake2seq <b|s> <p1> … <pk>
   blake2seq.trace <b|s> <p1> … <pk>
+  blakeseq.h <n> <salt> <tok> … <tok>                        a history on ONE object: `init` = h.initstate(salt) again (whatever
+                                                             was fed before is abandoned), `<hex>` = a piece, `<hex>/<L>` = a
+                                                             piece given with its bit length (the first L bits of the buffer
+                                                             count; L = 0: none of them); the last token is the final piece:
+                                                             digest;bitcnt after every non-final token (after `init` too)
+  blake2seq.h <b|s> <tok> … <tok>                            the same for Blake2 (its update takes no bit length)
 -/
 import Driver.Wire
 import Model.Blake
@@ -69,6 +75,66 @@ def piecesOk (bb : Nat) (pieces : List (List Nat)) : Bool :=
   !pieces.isEmpty && (pieces.take (pieces.length - 1)).all fun p => p.length % bb == 0
 
 def fmtSeq (r : List Nat × List Nat) : String := fmtBytes r.1 ++ ";" ++ fmtNatList r.2
+
+/-! ### histories with explicit bit lengths and re-initialisation (`blakeseq.h`, `blake2seq.h`) -/
+
+inductive Tok
+  | init
+  | piece (m : List Nat) (bitlen : Option Nat)
+
+def parseTok? (s : String) : Option Tok :=
+  if s = "init" then some .init else
+  match s.splitOn "/" with
+  | [x] => (parseBytes? x).map (.piece · none)
+  | [x, l] => do let x ← parseBytes? x; let l ← parseNat? l; pure (.piece x (some l))
+  | _ => none
+
+def blakeHistModel (c : Blake.Cfg) (salt : Nat) (toks : List Tok) : Except Err (List Nat × List Nat) :=
+  let rec go (s : Blake.State) (cnts : List Nat) : List Tok → Except Err (List Nat × List Nat)
+    | [] => .error "no pieces"
+    | [.piece p l] => do let d ← (Blake.update c s p l true).2; pure (d, cnts.reverse)
+    | .init :: rest =>
+      let s' := Blake.initstate c salt
+      go s' (s'.pad.bitcnt :: cnts) rest
+    | .piece p l :: rest =>
+      let (s', r) := Blake.update c s p l false
+      match r with
+      | .error e => .error e
+      | .ok _ => go s' (s'.pad.bitcnt :: cnts) rest
+  go (Blake.initstate c salt) [] toks
+
+/-- what the property says about a history, computed on the tokens alone: `none` when some step has to be refused (a
+    non-final piece that is not whole blocks, a bit length beyond the buffer, no final piece); else the bytes and the
+    number of bits of the message hashed since the last `init` (the first L bits of every piece, concatenated) and the
+    bit count after every non-final token (the bits fed since the last `init`) -/
+def histSpec (blockBits : Nat) (toks : List Tok) : Option (List Nat × Nat × List Nat) :=
+  let rec go (msg : List Nat) (bits : Nat) (cnts : List Nat) : List Tok → Option (List Nat × Nat × List Nat)
+    | [] => none
+    | [.init] => none
+    | [.piece p l] =>
+      let L := l.getD (8 * p.length)
+      if L > 8 * p.length then none else some (msg ++ p.take ((L + 7) / 8), bits + L, cnts.reverse)
+    | .init :: rest => go [] 0 (0 :: cnts) rest
+    | .piece p l :: rest =>
+      let L := l.getD (8 * p.length)
+      if L > 8 * p.length ∨ L % blockBits ≠ 0 then none else go (msg ++ p.take (L / 8)) (bits + L) ((bits + L) :: cnts) rest
+  go [] 0 [] toks
+
+def b2HistModel (c : Blake.Cfg) (toks : List Tok) : Except Err (List Nat × List Nat) := do
+  let s0 ← Blake2.initstate c {}
+  let rec go (s : Blake2.State) (cnts : List Nat) : List Tok → Except Err (List Nat × List Nat)
+    | [] => .error "no pieces"
+    | [.piece p none] => do let d ← (Blake2.update c s p true).2; pure (d, cnts.reverse)
+    | .piece _ (some _) :: _ => .error "TypeError:update() got an unexpected keyword argument 'bitlen'"
+    | .init :: rest => do
+      let s' ← Blake2.initstate c {}
+      go s' (s'.pad.bitcnt :: cnts) rest
+    | .piece p none :: rest =>
+      let (s', r) := Blake2.update c s p false
+      match r with
+      | .error e => .error e
+      | .ok _ => go s' (s'.pad.bitcnt :: cnts) rest
+  go s0 [] toks
 
 /-! ### BLAKE2 -/
 
@@ -180,6 +246,24 @@ def handle : Handler := fun op args =>
         | none => "ERR"
         | some V => if !piecesOk (V.block / 8) ps then "ERR" else
           fmtSeq (Spec.Blake.hash V ps.flatten (8 * ps.flatten.length) salt, prefixBits ps)
+      pure (m, sp)
+  | "blakeseq.h", n :: salt :: toks => do
+      let n ← parseNat? n; let salt ← parseNat? salt; let toks ← parseAll parseTok? toks
+      let m := fmtE fmtSeq (do let c ← Blake.mk? n; blakeHistModel c salt toks)
+      let sp := match Spec.Blake.variant? n with
+        | none => "ERR"
+        | some V => match histSpec V.block toks with
+          | none => "ERR"
+          | some (M, L, cnts) => fmtSeq (Spec.Blake.hash V M L salt, cnts)
+      pure (m, sp)
+  | "blake2seq.h", v :: toks => do
+      let (c, V) ← b2cfg? v
+      let toks ← parseAll parseTok? toks
+      let m := fmtE fmtSeq (b2HistModel c toks)
+      let noBitlen := toks.all fun | .piece _ (some _) => false | _ => true
+      let sp := match histSpec (8 * V.bb) toks with
+        | some (M, _, cnts) => if noBitlen then fmtSeq (Spec.Blake2.hash V (specParams V {}) M, cnts) else "ERR"
+        | none => "ERR"
       pure (m, sp)
   | "blakeseq.trace", n :: pieces => do
       let n ← parseNat? n; let ps ← parseAll parseBytes? pieces
